@@ -12,7 +12,12 @@
 //     handlers defer ReleaseCtx, ReleaseRedirect -> release before Put, release() hands the attached
 //     Redirect back;
 //   - whether parseAndClearFlashMessages wipes the reused message slice (full capacity) before
-//     UnmarshalMsg decodes into it, and whether it drops partial results on a decode error.
+//     UnmarshalMsg decodes into it, and whether it drops partial results on a decode error;
+//   - pool discipline: App.pool is touched only by AcquireCtx (Get) / ReleaseCtx (Put), redirectPool
+//     only by AcquireRedirect / ReleaseRedirect; serverErrorHandler defers ReleaseCtx;
+//   - the route-parameter slots (c.values, never reset): Route.match's catch-all branch writes slot 0 on
+//     every path, getMatch writes slot paramsIterator before any use of params in the same iteration,
+//     Params indexes c.values only with the loop variable of `range route.Params`.
 //
 // go/ast only. Output: lean/FiberModel/Generated/C05Facts.lean.
 package main
@@ -255,6 +260,15 @@ func (p *pkg) walkStmts(typ, recv string, list []ast.Stmt, eff effects, cond boo
 				}
 				continue
 			}
+			// recv.F.Clear() (sync.Map, maps behind a type with a Clear method): the field is emptied
+			if s, ok := call.Fun.(*ast.SelectorExpr); ok && s.Sel.Name == "Clear" && len(call.Args) == 0 {
+				if f, ok := fieldOf(s.X, recv); ok {
+					if _, isSel := s.X.(*ast.SelectorExpr); isSel && !cond {
+						eff.set(f, kZero)
+					}
+					continue
+				}
+			}
 			// a call of another method of the same receiver: inline its effects
 			if s, ok := call.Fun.(*ast.SelectorExpr); ok && depth < 3 {
 				if id, ok := s.X.(*ast.Ident); ok && id.Name == recv {
@@ -419,6 +433,295 @@ func flashFacts(d *ast.FuncDecl) (wipes, dropsOnError bool) {
 	return
 }
 
+// poolOpsConfined: App.pool is only touched by AcquireCtx (Get) / ReleaseCtx (Put) and redirectPool only
+// by AcquireRedirect (Get) / ReleaseRedirect (Put): no other code path can hand out or take back a
+// pooled object without Reset / release.
+func (p *pkg) poolOpsConfined() bool {
+	allowed := map[string]string{
+		"ctx.Get": "App.AcquireCtx", "ctx.Put": "App.ReleaseCtx",
+		"red.Get": "AcquireRedirect", "red.Put": "ReleaseRedirect",
+	}
+	seen := map[string]bool{}
+	ok := true
+	for name, d := range p.funcs {
+		ast.Inspect(d.Body, func(n ast.Node) bool {
+			call, isCall := n.(*ast.CallExpr)
+			if !isCall {
+				return true
+			}
+			sel, isSel := call.Fun.(*ast.SelectorExpr)
+			if !isSel || (sel.Sel.Name != "Get" && sel.Sel.Name != "Put") {
+				return true
+			}
+			pool := ""
+			switch x := sel.X.(type) {
+			case *ast.SelectorExpr:
+				if x.Sel.Name == "pool" {
+					pool = "ctx"
+				}
+			case *ast.Ident:
+				if x.Name == "redirectPool" {
+					pool = "red"
+				}
+			}
+			if pool == "" {
+				return true
+			}
+			key := pool + "." + sel.Sel.Name
+			if allowed[key] != name {
+				ok = false
+			}
+			seen[key] = true
+			return true
+		})
+	}
+	return ok && len(seen) == 4
+}
+
+func isParamsIndex(e ast.Expr, idx string) bool {
+	ix, ok := e.(*ast.IndexExpr)
+	if !ok {
+		return false
+	}
+	id, ok := ix.X.(*ast.Ident)
+	if !ok || id.Name != "params" {
+		return false
+	}
+	switch i := ix.Index.(type) {
+	case *ast.BasicLit:
+		return i.Value == idx
+	case *ast.Ident:
+		return i.Name == idx
+	}
+	return false
+}
+
+func mentions(n ast.Node, name string) bool {
+	found := false
+	ast.Inspect(n, func(x ast.Node) bool {
+		if id, ok := x.(*ast.Ident); ok && id.Name == name {
+			found = true
+		}
+		return true
+	})
+	return found
+}
+
+// assignsOnEveryPath: the statement list assigns params[idx] on every path before it returns.
+func assignsOnEveryPath(list []ast.Stmt, idx string) bool {
+	for _, s := range list {
+		switch x := s.(type) {
+		case *ast.AssignStmt:
+			for _, l := range x.Lhs {
+				if isParamsIndex(l, idx) {
+					return true
+				}
+			}
+		case *ast.IfStmt:
+			if els, ok := x.Else.(*ast.BlockStmt); ok {
+				if assignsOnEveryPath(x.Body.List, idx) && assignsOnEveryPath(els.List, idx) {
+					return true
+				}
+			}
+			if hasReturn(x) {
+				return false
+			}
+		case *ast.ReturnStmt:
+			return false
+		}
+	}
+	return false
+}
+
+func hasReturn(n ast.Node) bool {
+	found := false
+	ast.Inspect(n, func(x ast.Node) bool {
+		if _, ok := x.(*ast.ReturnStmt); ok {
+			found = true
+		}
+		return true
+	})
+	return found
+}
+
+// starWritesSlot0: in Route.match the catch-all branch (`if r.star`) writes params[0] on every path.
+func starWritesSlot0(d *ast.FuncDecl) bool {
+	if d == nil {
+		return false
+	}
+	res := false
+	ast.Inspect(d.Body, func(n ast.Node) bool {
+		ifs, ok := n.(*ast.IfStmt)
+		if !ok {
+			return true
+		}
+		if sel, ok := ifs.Cond.(*ast.SelectorExpr); ok && sel.Sel.Name == "star" {
+			res = assignsOnEveryPath(ifs.Body.List, "0")
+			return false
+		}
+		return true
+	})
+	return res
+}
+
+// getMatchWritesBeforeRead: in routeParser.getMatch every use of `params` sits in the parameter branch
+// of the segment loop, at or after the unconditional `params[paramsIterator] = ...` of that iteration,
+// and `paramsIterator` is only changed by the unconditional `paramsIterator++` that follows it.
+func getMatchWritesBeforeRead(d *ast.FuncDecl) bool {
+	if d == nil {
+		return false
+	}
+	var loop *ast.RangeStmt
+	for _, s := range d.Body.List {
+		if r, ok := s.(*ast.RangeStmt); ok && loop == nil {
+			loop = r
+		}
+	}
+	if loop == nil {
+		return false
+	}
+	// nothing outside the loop may touch params / paramsIterator (besides the declaration)
+	for _, s := range d.Body.List {
+		if s == ast.Stmt(loop) {
+			continue
+		}
+		if _, isDecl := s.(*ast.DeclStmt); isDecl {
+			continue
+		}
+		if mentions(s, "params") || mentions(s, "paramsIterator") {
+			return false
+		}
+	}
+	var paramBranch *ast.BlockStmt
+	for _, s := range loop.Body.List {
+		ifs, ok := s.(*ast.IfStmt)
+		if ok && paramBranch == nil {
+			if u, ok := ifs.Cond.(*ast.UnaryExpr); ok && u.Op == token.NOT {
+				if sel, ok := u.X.(*ast.SelectorExpr); ok && sel.Sel.Name == "IsParam" {
+					if mentions(ifs.Body, "params") || mentions(ifs.Body, "paramsIterator") {
+						return false
+					}
+					if els, ok := ifs.Else.(*ast.BlockStmt); ok {
+						paramBranch = els
+					}
+					continue
+				}
+			}
+		}
+		if mentions(s, "params") || mentions(s, "paramsIterator") {
+			return false
+		}
+	}
+	if paramBranch == nil {
+		return false
+	}
+	written, advanced := false, false
+	for _, s := range paramBranch.List {
+		if !written {
+			if as, ok := s.(*ast.AssignStmt); ok && len(as.Lhs) == 1 && isParamsIndex(as.Lhs[0], "paramsIterator") {
+				if mentions(as.Rhs[0], "params") {
+					return false
+				}
+				written = true
+				continue
+			}
+			// before the write: no use of params, no way to go on to the next segment or to succeed
+			if mentions(s, "params") || mentions(s, "paramsIterator") {
+				return false
+			}
+			bad := false
+			ast.Inspect(s, func(n ast.Node) bool {
+				switch x := n.(type) {
+				case *ast.BranchStmt:
+					bad = true
+				case *ast.ReturnStmt:
+					if len(x.Results) != 1 {
+						bad = true
+					} else if id, ok := x.Results[0].(*ast.Ident); !ok || id.Name != "false" {
+						bad = true
+					}
+				}
+				return true
+			})
+			if bad {
+				return false
+			}
+			continue
+		}
+		if inc, ok := s.(*ast.IncDecStmt); ok && inc.Tok == token.INC {
+			if id, ok := inc.X.(*ast.Ident); ok && id.Name == "paramsIterator" {
+				if advanced {
+					return false
+				}
+				advanced = true
+				continue
+			}
+		}
+		// after the write: paramsIterator must not change anywhere else, params must not be written again
+		bad := false
+		ast.Inspect(s, func(n ast.Node) bool {
+			switch x := n.(type) {
+			case *ast.AssignStmt:
+				for _, l := range x.Lhs {
+					if mentions(l, "paramsIterator") || mentions(l, "params") {
+						bad = true
+					}
+				}
+			case *ast.IncDecStmt:
+				bad = bad || mentions(x.X, "paramsIterator")
+			case *ast.BranchStmt:
+				if !advanced {
+					bad = true
+				}
+			}
+			return true
+		})
+		if bad {
+			return false
+		}
+	}
+	return written && advanced
+}
+
+// paramsReadsRouteSlots: DefaultCtx.Params indexes c.values only with the loop variable of a
+// `for i := range route.Params` loop.
+func paramsReadsRouteSlots(d *ast.FuncDecl) bool {
+	if d == nil {
+		return false
+	}
+	_, recv := recvName(d)
+	ok, reads := true, 0
+	var walk func(n ast.Node, keys map[string]bool)
+	walk = func(n ast.Node, keys map[string]bool) {
+		ast.Inspect(n, func(x ast.Node) bool {
+			switch v := x.(type) {
+			case *ast.RangeStmt:
+				inner := map[string]bool{}
+				for k := range keys {
+					inner[k] = true
+				}
+				if sel, isSel := v.X.(*ast.SelectorExpr); isSel && sel.Sel.Name == "Params" {
+					if id, isId := v.Key.(*ast.Ident); isId {
+						inner[id.Name] = true
+					}
+				}
+				walk(v.Body, inner)
+				return false
+			case *ast.IndexExpr:
+				if f, isF := fieldOf(v.X, recv); isF && f == "values" {
+					reads++
+					if id, isId := v.Index.(*ast.Ident); !isId || !keys[id.Name] {
+						ok = false
+					}
+				}
+			}
+			return true
+		})
+	}
+	walk(d.Body, map[string]bool{})
+	return ok && reads > 0
+}
+
 func main() {
 	repo := flag.String("repo", "/repo", "fiber repository")
 	out := flag.String("out", "lean/FiberModel/Generated/C05Facts.lean", "output file")
@@ -485,6 +788,11 @@ func main() {
 		{"ctxReleaseReturnsRedirect", calls(p.funcs["DefaultCtx.release"], "ReleaseRedirect", "")},
 		{"flashDecodeWipes", wipes},
 		{"flashDropsOnError", drops},
+		{"errorHandlerDefersRelease", defers(p.funcs["App.serverErrorHandler"], "ReleaseCtx")},
+		{"poolOpsConfined", p.poolOpsConfined()},
+		{"starWritesSlot0", starWritesSlot0(p.funcs["Route.match"])},
+		{"getMatchWritesBeforeRead", getMatchWritesBeforeRead(p.funcs["routeParser.getMatch"])},
+		{"paramsReadsRouteSlots", paramsReadsRouteSlots(p.funcs["DefaultCtx.Params"])},
 	}
 	b.WriteString("def lifecycle : Lifecycle := {\n")
 	for i, x := range bools {
